@@ -59,3 +59,77 @@ package tcp
 //@   props C03
 //@   observe BPFFilter
 //@   entry row synack: [call BPFFilter(r) as (f, n)] when ret0 == f + " and tcp[13] == 18" && ret1 == n -> exit
+
+// ---------------------------------------------------------------------------------------------
+// C05: probe frames. The layer structs handed to gopacket.SerializeLayers are freshly allocated per call and carry
+// exactly the requested fields: ip.Src/Dst = request, tcp.DstPort = request, the nine flags = the filler's,
+// 1 <= ip.Id <= 65535, 32768 <= tcp.SrcPort <= 60999, checksums bound to this ip header, FixLengths and
+// ComputeChecksums on; Ethernet (request MACs, type IPv4) first iff not VPN mode.
+//@ pred tcphdr(t *layers.TCP, f *PacketFiller, r *scan.Request, sp0 int) = fresh(t) && t.DstPort == r.DstPort && t.SrcPort == 32768 + sp0 && 32768 <= t.SrcPort && t.SrcPort <= 60999
+//@      && t.SYN == f.SYN && t.ACK == f.ACK && t.FIN == f.FIN && t.RST == f.RST && t.PSH == f.PSH && t.URG == f.URG && t.ECE == f.ECE && t.CWR == f.CWR && t.NS == f.NS
+//@ pred iphdr(ip *layers.IPv4, r *scan.Request, id0 int) = fresh(ip) && ip.SrcIP == r.SrcIP && ip.DstIP == r.DstIP && ip.Protocol == 6 && ip.Version == 4 && ip.Id == 1 + id0 && 1 <= ip.Id && ip.Id <= 65535 && ip.TTL == 64
+//@ pred ethhdr(e *layers.Ethernet, r *scan.Request) = fresh(e) && e.SrcMAC == r.SrcMAC && e.DstMAC == r.DstMAC && e.EthernetType == 2048
+//@ func (*PacketFiller).Fill
+//@   props C05
+//@   observe rand.Intn, rand.Uint32, SetNetworkLayerForChecksum, gopacket.SerializeLayers
+//@   entry row cksumerr: [call rand.Intn(65535) as (id0) ; call rand.Intn(28232) as (sp0) ; call rand.Uint32() as (sq) ; call SetNetworkLayerForChecksum(bind_ck, bind_n) as (ce)] when ce != nil && ret == ce -> exit
+//@   entry row vpn:   [call rand.Intn(65535) as (id0) ; call rand.Intn(28232) as (sp0) ; call rand.Uint32() as (sq) ; call SetNetworkLayerForChecksum(bind_ck, bind_n) as (ce) ;
+//@                     call gopacket.SerializeLayers(packet, bind_opt, bind_ls) as (se)]
+//@                       when ce == nil && f.vpnMode && ret == se && opt.FixLengths && opt.ComputeChecksums && len(ls) == 2
+//@                         && isptr(ls[0], layers.IPv4) && isptr(ls[1], layers.TCP) && ck == addr(asptr(ls[1], layers.TCP).tcpipchecksum) && isptr(n, layers.IPv4) && asptr(n, layers.IPv4) == asptr(ls[0], layers.IPv4)
+//@                         && iphdr(asptr(ls[0], layers.IPv4), r, id0) && tcphdr(asptr(ls[1], layers.TCP), f, r, sp0) -> exit
+//@   entry row eth:   [call rand.Intn(65535) as (id0) ; call rand.Intn(28232) as (sp0) ; call rand.Uint32() as (sq) ; call SetNetworkLayerForChecksum(bind_ck, bind_n) as (ce) ;
+//@                     call gopacket.SerializeLayers(packet, bind_opt, bind_ls) as (se)]
+//@                       when ce == nil && !f.vpnMode && ret == se && opt.FixLengths && opt.ComputeChecksums && len(ls) == 3
+//@                         && isptr(ls[0], layers.Ethernet) && ethhdr(asptr(ls[0], layers.Ethernet), r)
+//@                         && isptr(ls[1], layers.IPv4) && isptr(ls[2], layers.TCP) && ck == addr(asptr(ls[2], layers.TCP).tcpipchecksum) && isptr(n, layers.IPv4) && asptr(n, layers.IPv4) == asptr(ls[1], layers.IPv4)
+//@                         && iphdr(asptr(ls[1], layers.IPv4), r, id0) && tcphdr(asptr(ls[2], layers.TCP), f, r, sp0) -> exit
+
+// C05: every option sets exactly its own field (frame: nothing else of the filler changes)
+//@ func WithSYN$1
+//@   props C05
+//@   modifies f.SYN
+//@   ensures f.SYN
+//@ func WithACK$1
+//@   props C05
+//@   modifies f.ACK
+//@   ensures f.ACK
+//@ func WithFIN$1
+//@   props C05
+//@   modifies f.FIN
+//@   ensures f.FIN
+//@ func WithRST$1
+//@   props C05
+//@   modifies f.RST
+//@   ensures f.RST
+//@ func WithPSH$1
+//@   props C05
+//@   modifies f.PSH
+//@   ensures f.PSH
+//@ func WithURG$1
+//@   props C05
+//@   modifies f.URG
+//@   ensures f.URG
+//@ func WithECE$1
+//@   props C05
+//@   modifies f.ECE
+//@   ensures f.ECE
+//@ func WithCWR$1
+//@   props C05
+//@   modifies f.CWR
+//@   ensures f.CWR
+//@ func WithNS$1
+//@   props C05
+//@   modifies f.NS
+//@   ensures f.NS
+//@ func WithFillerVPNmode$1
+//@   props C05
+//@   modifies f.vpnMode
+//@   ensures f.vpnMode == vpnMode
+// constructor: a zero filler, then the options applied in order, nothing else
+//@ func NewPacketFiller
+//@   props C05
+//@   observe o
+//@   entry row init:  [] -> loop 0
+//@   loop 0 row apply: [call o(bind_x)] when fresh(x) -> continue
+//@   loop 0 row done:  [] when fresh(ret) -> exit
